@@ -150,6 +150,50 @@ def main():
             except Exception as e:  # noqa
                 if ok0:
                     em.violation("validate=0 parse raised %r" % e, {"frame": g.hex()}, repr(e))
+    # histories: the SAME damaged bytes looked at with validation off first (a diagnostic look at a frame that failed), through the
+    # reader or the static parser, then parsed with validation on -- and the other way round: the verdict with validation on must not
+    # depend on what was parsed before
+    import io as _io
+    for f in frames[: (8 if thorough else 4)]:
+        nb = len(f) * 8
+        for _ in range(12 if thorough else 6):
+            kind = rng.choice(["one", "two", "odd", "burst", "crc"])
+            if kind == "one":
+                ps = [rng.randrange(nb)]
+            elif kind == "two":
+                ps = rng.sample(range(nb), 2)
+            elif kind == "odd":
+                ps = rng.sample(range(nb), rng.choice([3, 5, 7]))
+            elif kind == "burst":
+                st = rng.randrange(0, nb - 24)
+                ps = [st, st + 23] + [st + i for i in range(1, 23) if rng.random() < 0.5]
+            else:
+                ps = [nb - 1 - rng.randrange(24)]
+            g = flip(f, ps)
+            ndet += 3
+            for how in ("static", "reader"):
+                try:
+                    if how == "static":
+                        RTCMReader.parse(g, validate=0)
+                    else:
+                        list(RTCMReader(_io.BytesIO(g + g), validate=0, quitonerror=0))
+                except Exception:  # noqa
+                    pass
+                if not rejected(g):
+                    em.violation("a damaged frame is accepted with validation on after the same bytes were parsed with validation off (%s)" % how,
+                                 {"frame": f.hex(), "bits": ps, "note": "history: parse(validate=0) of the damaged bytes via the %s, then parse(validate=1)" % how}, {})
+                got = [r for r, _ in RTCMReader(_io.BytesIO(g + f + g), validate=1, quitonerror=0)]
+                if got != [f]:
+                    em.violation("reader with validation on returns %d frames from damaged+good+damaged after the damaged bytes were parsed with validation off" % len(got),
+                                 {"frame": f.hex(), "bits": ps, "note": "history: validate=0 parse first"}, {})
+            # ... and a good frame parsed first must not make its damaged sibling acceptable, nor the reverse
+            try:
+                RTCMReader.parse(f, validate=1)
+            except Exception:  # noqa
+                pass
+            if not rejected(g):
+                em.violation("a damaged frame is accepted right after its undamaged original was parsed", {"frame": f.hex(), "bits": ps}, {})
+        em.count("damage.history")
     # damage of the LENGTH field that turns the frame into <valid shorter frame> + residue: still damage, still to be rejected
     for lf, bits, short in gen.prefix_frame_pairs(rng):
         ndet += 2
